@@ -16,12 +16,22 @@ def ser_expr(e):
         r.extend(ser_expr(a) for a in e.args)
         return r
     if isinstance(e, X.Constant):
-        return [type(e).__name__, type(e.value).__name__, repr(e.value)]
+        return [type(e).__name__, type(e.value).__name__, safe_repr(e.value)]
     if isinstance(e, X.Wrap):
         return ['Wrap', ser_expr(e.expr)]
     if isinstance(e, X.MappingRuleExpression):
         return ['MappingRule', ser_expr(e.source), ser_expr(e.destination)]
     return ['?', type(e).__name__, repr(e)]
+
+
+def safe_repr(v):
+    try:
+        return repr(v)
+    except ValueError:
+        # integers beyond the interpreter's int->str digit limit
+        if isinstance(v, int):
+            return 'int:bits=%d:low=%d' % (v.bit_length(), v & 0xffffffff)
+        return '<unreprable %s>' % type(v).__name__
 
 
 def ser_parse_error(e):
@@ -36,7 +46,7 @@ def ser_value(v, depth=0):
         return ['deep']
     if v is None or isinstance(v, (bool, int, str)):
         return [type(v).__name__, v if not isinstance(v, int) or
-                abs(v) < 1 << 62 else str(v)]
+                abs(v) < 1 << 62 else safe_repr(v)]
     if isinstance(v, float):
         return ['float', repr(v)]
     if isinstance(v, (list, tuple)):
